@@ -62,7 +62,7 @@ Definition Qa (m : pomdp) (h' : nat) (b : vec) (a : nat) : Q :=
 
 Section RTBSS.
   Variable m : pomdp.
-  Hypothesis Hwf : wf_pomdp m.
+  Hypothesis Hwf : wf_pomdp1 m.
   Let S := nS (pm m).
   Variable maxR : Q.
   Hypothesis HR : forall s a, (s < S)%nat -> (a < nA (pm m))%nat -> Rw m s a <= maxR.
